@@ -18,7 +18,7 @@ EXP, NULLISH, IN_OP = 23, 24, 21
 
 TS_NONE_FIELDS = {'type_args', 'type_params', 'return_type', 'type_ann', 'super_type_params', 'accessibility'}
 
-NEVER_EXPR = ['JSXMember', 'JSXNamespacedName', 'JSXEmpty', 'JSXElement', 'JSXFragment', 'TsTypeAssertion', 'TsConstAssertion', 'TsNonNull', 'TsAs', 'TsInstantiation', 'TsSatisfies', 'PrivateName', 'Invalid', 'SuperProp', 'MetaProp', 'TaggedTpl', 'Class', 'Fn', 'Object']
+NEVER_EXPR = ['JSXMember', 'JSXNamespacedName', 'JSXEmpty', 'JSXElement', 'JSXFragment', 'TsTypeAssertion', 'TsConstAssertion', 'TsNonNull', 'TsAs', 'TsInstantiation', 'TsSatisfies', 'PrivateName', 'Invalid', 'SuperProp', 'MetaProp', 'TaggedTpl', 'Class', 'Fn']
 
 LOW_PREC = {'Assign', 'Cond', 'Seq', 'Arrow', 'Yield'}
 
@@ -47,6 +47,7 @@ class ExprPolicy:
         self.len_pins = []                  # [(compiled uid regex, [lengths])]
         self.opt_pins = []                  # [(compiled uid regex, [0|1,...])]
         self.import_callee = False
+        self.free_strings = None
         self.op_budget = op_budget          # max number of non-leaf expression nodes in the whole input (None = unbounded)
         self.budget_kinds = set(budget_kinds)
         self.levels = levels
@@ -108,6 +109,8 @@ class ExprPolicy:
             role = li.role
             f = role[1] if role else None
             owner = role[0] if role else None
+            if 'Object' in allowed and not ((owner, f) in (('VarDeclarator', 'init'), ('ExprOrSpread', 'expr'), ('KeyValueProp', 'value'), ('ParenExpr', 'expr'), ('AssignExpr', 'right'), ('ReturnStmt', 'arg'))):
+                allowed = [k for k in allowed if k != 'Object']
             if owner == 'BinExpr':
                 allowed = [k for k in allowed if k not in LOW_PREC]
                 if f == 'right':
@@ -270,6 +273,20 @@ class ExprPolicy:
         head, gen = parse_ty(ty)
         ctx = g.ctx
         if head == 'Str':
+            if getattr(self, 'free_strings', None) and not re.search(r'(?:\.body|\.stmts)\[\d+\](?:/Stmt)?/Expr\.expr/Lit/Str$', uid):
+                # free string literal: contents abstract, *length* an independent symbolic integer (the solver never has to
+                # build long strings); equal strings have equal lengths
+                sv = ctx.var('s!' + uid + '.value', z3.StringSort())
+                nv = ctx.var('n!' + uid + '.value', z3.IntSort())
+                if sv.get_id() not in ctx.notes.setdefault('free_len_ids', set()):
+                    ctx.notes['free_len_ids'].add(sv.get_id())
+                    lo, hi = self.free_strings
+                    ctx.add(z3.And(nv >= lo, nv <= hi), dom=False)
+                    for (sv2, nv2) in ctx.notes.setdefault('free_strings', []):
+                        ctx.add(z3.Implies(sv == sv2, nv == nv2), dom=False)
+                    ctx.notes['free_strings'].append((sv, nv))
+                    models.FREE_LEN[sv.get_id()] = nv
+                return Adt('Str', None, [g.make_span(uid + '.span', None), StrV(sv), models.none()], None, {'uid': uid})
             val = g.make('Atom', uid + '.value', depth, ('Str', 'value'))
             if getattr(self, 'quotes', None):
                 q = ctx.var('s!' + uid + '.quote', z3.StringSort())
